@@ -24,6 +24,7 @@ META = {
     "required_counters": ["reconnect_attempts_checked", "runs_with_reconnect", "final_stop_checked"],
     "assumptions": [],
 }
+META["claim"] += " " + "Also: losses that cut a frame or a fragmented message in half, a TLS end of stream without close_notify (SSLEOFError), a server close frame with an undecodable reason, outages of hundreds of refused attempts, and run_forever's return value (True exactly when an error was reported)."
 
 LOSSES = ["refused", "reject", "eof", "reset", "pingtimeout"]
 TLS_LOSSES = ["ssl-eof"]
